@@ -266,6 +266,60 @@ Proof.
     + destruct (Nat.ltb_spec i (n - 1)); [reflexivity|lia].
 Qed.
 
+(* ---------- any history of writes refines pointwise updates of the dense twin ---------- *)
+Definition band_b (i j : nat) : bool := (i =? j) || (i =? j + 1) || (i + 1 =? j).
+Lemma band_b_spec i j : band_b i j = true <-> in_band i j.
+Proof.
+  unfold band_b, in_band. rewrite !orb_true_iff, !Nat.eqb_eq. tauto.
+Qed.
+
+(* one write as the caller sees it: a refused write leaves the matrix as it was *)
+Definition wstep (t : tridiag) (w : nat * nat * T) : tridiag :=
+  let '(i, j, x) := w in match tset t i j x with Ok t' => t' | Panic _ => t end.
+(* the same write on the textbook n x n matrix restricted to the band *)
+Definition dstep (n : nat) (d : nat -> nat -> T) (w : nat * nat * T) : nat -> nat -> T :=
+  let '(i, j, x) := w in
+  if (i <? n) && (j <? n) && band_b i j
+  then fun a b => if (a =? i) && (b =? j) then x else d a b
+  else d.
+
+Lemma wstep_spec t w : wfT t ->
+  wfT (wstep t w) /\ tn (wstep t w) = tn t /\
+  forall a b, a < tn t -> b < tn t -> dense (wstep t w) a b = dstep (tn t) (dense t) w a b.
+Proof.
+  intros W. destruct w as [[i j] x]. unfold wstep, dstep.
+  destruct (Nat.ltb_spec i (tn t)) as [Hi|Hi]; cbn [andb].
+  2:{ rewrite tset_refuses by lia. auto. }
+  destruct (Nat.ltb_spec j (tn t)) as [Hj|Hj]; cbn [andb].
+  2:{ rewrite tset_refuses by lia. auto. }
+  destruct (band_b i j) eqn:Eb.
+  - apply band_b_spec in Eb. destruct (tset_in_band t i j x W Hi Hj Eb) as (t' & E & W' & N' & V').
+    rewrite E. auto.
+  - rewrite tset_refuses; auto. right; right. intros Hb. apply band_b_spec in Hb. congruence.
+Qed.
+
+Lemma write_history_lemma (ws : list (nat * nat * T)) : forall t, wfT t ->
+  wfT (fold_left wstep ws t) /\ tn (fold_left wstep ws t) = tn t /\
+  forall a b, a < tn t -> b < tn t ->
+    dense (fold_left wstep ws t) a b = fold_left (dstep (tn t)) ws (dense t) a b.
+Proof.
+  induction ws as [|w ws IH]; intros t W; cbn [fold_left]; [auto|].
+  destruct (wstep_spec t w W) as (W1 & N1 & V1).
+  destruct (IH (wstep t w) W1) as (W2 & N2 & V2).
+  split; [exact W2|]. split; [congruence|].
+  intros a b Ha Hb. rewrite V2 by lia. rewrite N1.
+  (* the two folds start from functions that agree on [0,n) x [0,n) *)
+  assert (Ext : forall ws (d d' : nat -> nat -> T),
+            (forall a b, a < tn t -> b < tn t -> d a b = d' a b) ->
+            forall a b, a < tn t -> b < tn t ->
+              fold_left (dstep (tn t)) ws d a b = fold_left (dstep (tn t)) ws d' a b).
+  { clear. induction ws as [|w ws IH]; intros d d' H a b Ha Hb; cbn [fold_left]; [now apply H|].
+    apply IH; auto. intros a' b' Ha' Hb'. destruct w as [[i j] x]. unfold dstep.
+    destruct ((i <? tn t) && (j <? tn t) && band_b i j); [|now apply H].
+    destruct ((a' =? i) && (b' =? j)); [reflexivity|now apply H]. }
+  apply Ext; auto.
+Qed.
+
 Lemma tridiag_constructors_lemma (sub main sup : list T) (a b c : T) (n : nat) :
   (1 <= length main -> length sub = length main - 1 -> length sup = length main - 1 ->
      exists t, with_vecs sub main sup = Ok t /\ wfT t /\ tn t = length main /\
